@@ -11,7 +11,7 @@ open Rpft
 
 /-- `pre`: identifiers allocated before the constructor ran that end up in the node -/
 def NewNode (s : St) (given : Str) (pre : List Uid) (n : NodeM) (s' : St) : Prop :=
-  ∃ k, Bump s s' k ∧ (∀ d ∈ n.exitDests, d = Dest.none) ∧
+  ∃ k, Bump s s' k ∧ ((∀ d ∈ n.exitDests, d = Dest.none) ∧ n.dexitDest = Dest.none) ∧
     (∀ r, n.router = some (.sw r) → CaseCatsOk r) ∧
     (given = [] → Grow s.next (s.next + k) pre n.ids)
 
@@ -111,7 +111,7 @@ theorem newNode_sw {s : St} {given : Str} {pre : List Uid} {u e : Uid} {kind : N
       ({ uid := u, kind := kind, actions := acts, router := some (.sw sw), dexitUid := e,
          dexitDest := .none } : NodeM)
       { s with next := s.next + k } := by
-  refine ⟨k, rfl, ?_, ?_, ?_⟩
+  refine ⟨k, rfl, ⟨?_, rfl⟩, ?_, ?_⟩
   · intro d hdd
     simp only [NodeM.exitDests, List.mem_map] at hdd
     obtain ⟨c, hc1, rfl⟩ := hdd
